@@ -53,7 +53,9 @@ PROPS = {
     ),
     "C06": dict(
         module="OrbitModel.Properties.C06",
-        theorems=[],
+        theorems=["Orbit.C06.index_tracks_replay", "Orbit.C06.index_step", "Orbit.C06.seen_is_listed_before",
+                  "Orbit.C06.later_put_wins", "Orbit.C06.later_delete_wins", "Orbit.C06.own_write_listed_last",
+                  "Orbit.C06.stale_key_survives"],
         families=[("kv", 120, 4000, 16)],
         corr_fields={"values", "idx", "ack", "time", "next"},
         nontrivial=nt_kv,
@@ -63,7 +65,8 @@ PROPS = {
     ),
     "C07": dict(
         module="OrbitModel.Properties.C07",
-        theorems=[],
+        theorems=["Orbit.C07.index_tracks_replay", "Orbit.C07.index_step", "Orbit.C07.pinned_tree_violates",
+                  "Orbit.C07.get_returns_exactly_matching"],
         families=[("doc", 120, 4000, 14)],
         corr_fields={"values", "idx", "ack", "docget"},
         nontrivial=nt_doc,
@@ -73,7 +76,9 @@ PROPS = {
     ),
     "C08": dict(
         module="OrbitModel.Properties.C08",
-        theorems=[],
+        theorems=["Orbit.C08.listing_only_grows", "Orbit.C08.listing_only_grows_steps", "Orbit.C08.listed_after_seen",
+                  "Orbit.C08.query_returns_exact_window", "Orbit.C08.window_iff_single_bound",
+                  "Orbit.C08.get_returns_entry", "Orbit.C08.result_is_contiguous"],
         families=[("log", 120, 4000, 16)],
         corr_fields={"values", "result", "time", "next"},
         nontrivial=nt_log,
@@ -97,6 +102,18 @@ _TIE = ("Lean 4 theorems about a hand-written model + correspondence harness: th
         "PRNG histories and the compiled Lean driver replays every operation through the model and evaluates the "
         "property's L1 predicate on the implementation's own observations")
 MANIFEST_TEXT = {
+    "C06": dict(
+        text="Kernel-checked theorems: for every history of a replica (any interleaving of local appends and merged batches) the index produced by the real UpdateIndex loop (newest-to-oldest scan with a handled set over a map that is never cleared) is equivalent to the last-writer-wins replay of the current listing; entries seen by a writer are listed before its update; the later update wins. Tied to the code by replaying every Put/Delete/Sync through the model and by checking All() = lwwReplay(Values()) on the implementation after every step on every replica.",
+        note="Trusted: Lean kernel + standard axioms; hand-written model of kvIndex.UpdateIndex and of the log, validated by correspondence (bounded by the generators); hypothesis KvOps (a key-value log carries only PUT/DEL) and the log universe assumptions.",
+        technique="Lean 4 proof (handled-set scan = replay, invariant along histories) with differential correspondence against the real key-value store"),
+    "C07": dict(
+        text="Kernel-checked theorems: the document index loop (after the fix: commit for PUTALL members) is equivalent to the replay of the listing at every step of every history, batch members included; Get returns exactly the matching index keys; the pinned loop is refuted by a decide-checked witness that was replayed on the real code before the fix. Correspondence and the L1 predicate index = docReplay(Values()) run on the implementation after every step; Get/Query results are compared with the matching documents of the index.",
+        note="Trusted: Lean kernel + standard axioms; hand-written model of documentIndex.UpdateIndex/Get validated by correspondence; DocWF (members of one PUTALL have distinct keys: built from a Go map); ASCII lower-casing in the model; search keys with spaces excluded by the property.",
+        technique="Lean 4 proof (generic handled-set scan = replay theorem instantiated for PUT/DEL/PUTALL) with differential correspondence against the real document store"),
+    "C08": dict(
+        text="Kernel-checked theorems: any step (append or successful join of any batch) keeps the old listing as a sublist of the new one; an entry is listed after every entry its writer had seen; a writer's own append is listed last; the Go query/read pair (reverse, read, reverse) returns exactly the contiguous window for every single bound in the log and every amount in Int, iff at most one bound of a direction is set; Get returns the entry. The harness checks sublist-stability, causal order and exact windows on the implementation's own listings.",
+        note="Trusted: Lean kernel + standard axioms; hand-written model of eventlogstore query/read and of the log validated by correspondence; bounds are entries of the log (the property excludes other hashes).",
+        technique="Lean 4 proof (sorted-listing uniqueness/sublist lemmas; list arithmetic for windows) with differential correspondence against the real event log store"),
     "C01": dict(
         text="Kernel-checked theorem: any two logs reachable by appends and honest same-database joins (any order, batching, duplication) that hold the same entries have identical Values() and heads — unbounded in entries/writers/batches. Tied to the code by replaying every harness operation through the model and comparing listing, heads and index after every step, and by checking directly on the implementation that equal entry sets give equal observable state.",
         note="Trusted: Lean kernel + standard axioms; the model of go-ipfs-log (dependency) and of the store indices is hand-written and validated by the correspondence run, whose reach is bounded by the generators; routes covered on the implementation today: local write and Sync→replicator batches (announce/exchange/load/snapshot routes reduce to the same Join in the model).",
